@@ -361,7 +361,7 @@ registry!(reg,
     "tup16" => (u8, u8, u8, u8, u8, u8, u8, u8, u8, u8, u8, u8, u8, u8, u8, u8),
     "tup5" => (u8, i16, u8, i16, u8), "tup6" => (u8, i16, u8, i16, u8, i16), "tup7" => (u8, i16, u8, i16, u8, i16, u8), "tup8" => (u8, i16, u8, i16, u8, i16, u8, i16), "tup9" => (u8, i16, u8, i16, u8, i16, u8, i16, u8), "tup10" => (u8, i16, u8, i16, u8, i16, u8, i16, u8, i16), "tup11" => (u8, i16, u8, i16, u8, i16, u8, i16, u8, i16, u8), "tup12" => (u8, i16, u8, i16, u8, i16, u8, i16, u8, i16, u8, i16), "tup13" => (u8, i16, u8, i16, u8, i16, u8, i16, u8, i16, u8, i16, u8), "tup14" => (u8, i16, u8, i16, u8, i16, u8, i16, u8, i16, u8, i16, u8, i16), "tup15" => (u8, i16, u8, i16, u8, i16, u8, i16, u8, i16, u8, i16, u8, i16, u8),
     "cowsliceu16" => std::borrow::Cow<'static, [u16]>, "arr2tup" => [(u8, bool); 2], "vecarr" => Vec<[u8; 3]>, "optbox" => Option<Box<i32>>, "boxvec" => Box<Vec<String>>,
-    "arr0u8" => [u8; 0], "arr1string" => [String; 1], "arr3i32" => [i32; 3], "arr16u8" => [u8; 16], "arr32u8" => [u8; 32],
+    "arr0u8" => [u8; 0], "arr1string" => [String; 1], "arr3i32" => [i32; 3], "arr23u16" => [u16; 23], "arr24bool" => [bool; 24], "arr25i8" => [i8; 25], "arr16u8" => [u8; 16], "arr32u8" => [u8; 32],
     "vecu8" => Vec<u8>, "vecstring" => Vec<String>, "vecvecu16" => Vec<Vec<u16>>, "vecoptbool" => Vec<Option<bool>>, "vecdequei32" => VecDeque<i32>, "linkedlistu64" => LinkedList<u64>,
     "btreesetu16" => BTreeSet<u16>, "binaryheapu8" => BinaryHeap<u8>, "hashsetstring" => HashSet<String>, "hashseti32" => HashSet<i32>,
     "btreemapu8string" => BTreeMap<u8, String>, "btreemapstringvecu8" => BTreeMap<String, Vec<u8>>, "hashmapu16bool" => HashMap<u16, bool>, "hashmapstringi64" => HashMap<String, i64>,
